@@ -272,6 +272,29 @@ func catalogue() []entry {
 				return firstErr(wantTM(x, v, true), wantKey(x, kValidator(v.Val.Addr), true))
 			},
 		})
+	// a SWAP: in the block in which the new validator stakes, a seated one unstakes everything. Both changes reach
+	// Tendermint through the same EndBlock, so two blocks later the validator set has the same SIZE and another
+	// member; anything a node keeps in memory about "the members of the last commit" and refreshes by size is wrong
+	// from then on - on a node that kept running, not on one that was restarted. (Added after a seeded change - the
+	// map of last-commit members rebuilt only when its size changes - escaped every crash point of every history:
+	// validators only ever joined or left alone.)
+	out = append(out, entry{
+		sc: &harness.Scenario{Kind: action.STAKE.String(), Note: "multi-new-validator-joins-in-the-block-in-which-another-one-unstakes-everything",
+			World:  defaultWorld("stake-swap"),
+			Prefix: func(w *W) []B { return empties(2) },
+			Target: func(w *W) *T { return Stake(w.Vals[3], w.Vals[3].Stake, WholeOLT(600000), "swap-stake") },
+			Also: func(w *W) []*T {
+				v := w.Vals[2]
+				return []*T{Unstake(v.Val, v.Stake, WholeOLT(1000000), "swap-unstake")}
+			},
+			After: 8},
+		ex: Expect{
+			Touched: []string{"st__t_", "v_"},
+			Final: func(x *harness.Run) error {
+				in, out := x.W.Vals[3], x.W.Vals[2]
+				return firstErr(wantTM(x, in, true), wantTM(x, out, false), wantKey(x, kValidator(out.Val.Addr), false))
+			},
+		}})
 	add(action.STAKE, "stake-new-validator-below-minimum", defaultWorld("stake-low"),
 		func(w *W) []B { return empties(2) },
 		func(w *W) *T { return Stake(w.Vals[3], w.Vals[3].Stake, WholeOLT(1000), "stake-low-1") },
